@@ -11,6 +11,7 @@ scenario = {
   "expect": {"all": bool, "idle": bool}
 }
 """
+import os
 import random
 import logging
 logging.disable(logging.CRITICAL)
@@ -214,6 +215,9 @@ def run(sc):
             continue
         if kind == 3:
             def tcb(cookie, n=n, s=s):
+                if s.get("periodic"):           # a cyclic timer (the callback asks to be called again)
+                    sim.log({"ev": "timer", "node": n.name, "period": s["delta"]})
+                    return True
                 sim.log({"ev": "timer", "node": n.name})
                 if "send" in s:         # a submission from inside a timer callback (job thread context)
                     q = s["send"]
@@ -245,5 +249,7 @@ def run(sc):
     expect = {"all": False, "idle": False, "slack": 0, "dm": True, "free": False,
               "bus": not (sc.get("drop") or sc.get("silence") or sc.get("hostile"))}
     expect.update(sc.get("expect", {}))
+    if os.environ.get("VERIF_MONITOR_ONLY"):
+        expect["free"] = True            # developer switch: judge by the property monitors alone (no output prediction)
     sim.peer_objs = peers
     return {"cfg": cfg0, "ev": sim.trace, "expect": expect, "meta": {"scenario": sc}}, sim
